@@ -356,6 +356,6 @@ VerdictOf ==
              "onlygen_despite_enough", "extra_invocations", "gen_before_failfiles", "pass_without_verdict",
              "failed_without_report", "onlygen_count", "ret_budget"},
     C11 |-> {"phantom_failure", "lost_failure", "reported_failure_never_happened", "flaky_report", "skip_misjudged",
-             "label_carried_over", "failure_message"},
+             "label_carried_over", "failure_message", "dead_context_in_body"},
     C17 |-> {"ff_ignored_silently", "ff_changed_verdict", "ff_changed_cases", "ff_after_failure", "ff_order"} ]
 =============================================================================
